@@ -18,6 +18,8 @@ from dask_expr._expr import (
     ToFrame,
     are_co_aligned,
     determine_column_projection,
+    rows_source_key,
+    same_rows_source,
 )
 from dask_expr._util import _convert_to_list
 
@@ -55,13 +57,13 @@ class Concat(Expr):
 
     @functools.cached_property
     def _meta(self):
-        # ignore DataFrame without columns to avoid dtype upcasting
+        # ignore DataFrame without columns to avoid dtype upcasting (axis=0)
         return make_meta(
             methods.concat(
                 [
                     meta_nonempty(df._meta)
                     for df in self._frames
-                    if df.ndim < 2 or len(df._meta.columns) > 0
+                    if self.axis == 1 or df.ndim < 2 or len(df._meta.columns) > 0
                 ],
                 join=self.join,
                 filter_warning=False,
@@ -257,7 +259,13 @@ class Concat(Expr):
                 return
 
             # a frame without any requested column still contributes its rows
-            # (axis=0) or its index (axis=1) unless the frames are aligned already
+            # (axis=0) or its index (axis=1) unless a frame that is kept provably
+            # has the same index: being partitioned alike is not enough
+            sources = [
+                rows_source_key(same_rows_source(frame, index=True))
+                for frame in self._frames
+            ]
+            kept = {src for src, cols in zip(sources, columns_frame) if len(cols) > 0}
             droppable = self.axis == 1 and self._are_co_alinged_or_single_partition
             frames = [
                 (
@@ -266,8 +274,8 @@ class Concat(Expr):
                     and frame.ndim == 2
                     else frame
                 )
-                for frame, cols in zip(self._frames, columns_frame)
-                if len(cols) > 0 or not droppable
+                for frame, cols, src in zip(self._frames, columns_frame, sources)
+                if len(cols) > 0 or not (droppable and src in kept)
             ]
             result = type(self)(
                 *[self.operand(param) for param in self._parameters],
@@ -358,11 +366,15 @@ class ConcatUnindexed(Blockwise):
 
     @functools.cached_property
     def _meta(self):
-        return methods.concat(
-            [df._meta for df in self.dependencies()],
-            ignore_order=self.ignore_order,
-            axis=self.axis,
-            **self.operand("_kwargs"),
+        # pandas cannot concatenate an empty Series with an empty DataFrame
+        # without columns
+        return make_meta(
+            methods.concat(
+                [meta_nonempty(df._meta) for df in self.dependencies()],
+                ignore_order=self.ignore_order,
+                axis=self.axis,
+                **self.operand("_kwargs"),
+            )
         )
 
     @staticmethod
